@@ -1,4 +1,5 @@
 import CM.Proofs.ParseScanMain
+import CM.Ops.TailHyp
 /-
 C02 / C04, inline halves, connected to the block phase (session 4, sixth wave; 40 proof files `ParseScan*`).
 
@@ -49,5 +50,8 @@ theorem blockphase_tokNP : type_of% @PSc.blockphase_tokNP := @PSc.blockphase_tok
 /-- C02 / C04 inline halves for the whole of `Parse`, given the scanner facts of the roots' trees. -/
 theorem parse_spans_of : type_of% @PSc.parse_spansOK_nodes_of := @PSc.parse_spansOK_nodes_of
 theorem parse_noPanic_of : type_of% @PSc.parse_rewrite_noPanic_of := @PSc.parse_rewrite_noPanic_of
+
+/-- The run-time monitor `tailhyp` (asked for the documents of every C02 run) computes exactly the two tail facts. -/
+theorem tail_monitor_exact : type_of% @CM.Ops.tailsOKb_iff := @CM.Ops.tailsOKb_iff
 
 end CM.Props.C02
